@@ -59,4 +59,27 @@ theorem C08_closed_examples :
       | _ => false) = true := by
   decide +kernel
 
+/-- Finding F8 (known finding, replayed on the real code by the `samename` workload): two distinct
+derived types named `S`, each with one field of a type named `X`, where the two `X` differ
+(`u8` vs `u16`).  The derive skips the fields of a declaration that is already present, so the
+nested conflict is never compared: no panic, the container defines `X` as the first one, its
+maximum is 2 bytes, and a value of the pair encodes to 3 bytes. -/
+theorem C08_F8_same_name_witness :
+    let xa := Ty.prod (.struct [88] false) [(none, false, .int .u8)]
+    let xb := Ty.prod (.struct [88] false) [(none, false, .int .u16)]
+    let sa := Ty.prod (.struct [83] false) [(some [102], false, xa)]
+    let sb := Ty.prod (.struct [83] false) [(some [102], false, xb)]
+    let t := Ty.tuple [sa, sb]
+    let v := Val.list [.list [.list [.int 1]], .list [.list [.int 2]]]
+    ((match schemaOf t with
+      | .ok c => c.get [88] == some (.struct (.unnamed [[117, 56]])) &&
+                 c.validate == .ok () && c.maxSerializedSize == .ok 2
+      | _ => false) &&
+     HasTy t v && (toVec t v).okBytes [1, 2, 0] &&
+     -- a direct conflict is detected, as documented
+     (match schemaOf (Ty.tuple [xa, xb]) with
+      | .panic .assertRedefinition => true
+      | _ => false)) = true := by
+  decide +kernel
+
 end Borsh
